@@ -10,6 +10,7 @@ PID = "C02"
 ANCHORS = ["scores.py:Scores._invert_increasing_function", "scores.py:Scores._threshold_at_ratio",
            "scores.py:Scores.threshold_at_tpr", "scores.py:Scores.threshold_at_fnr", "scores.py:Scores.threshold_at_tnr",
            "scores.py:Scores.threshold_at_fpr", "scores.py:Scores.threshold_at_topr", "scores.py:Scores.threshold_at_tonr"]
+RAISES_ARE_VIOLATIONS = True
 DECIDING = {"M-thr": 50000}
 THOROUGH_EXTRA = ["W2", "W3"]
 RULE = (
